@@ -378,3 +378,46 @@ def c14_delete_keeps_pooled_reserved(ctx, v):
         n += 1
     v.covers_total += 1
     v.covers_sat += 1 if n else 0
+
+
+def c14_hand_back_only_own_blocks(ctx, v):
+    """Blockchain::add_block_transactions_back (run when a block fails validation) writes
+    transactions straight into the pool, past the conflict check and the input reservation of
+    add_transaction.  That is only safe for a block this node bundled itself — its transactions
+    were drained from this very pool, so they cannot conflict with what is pooled now.  On every
+    path: the pool is touched (insert into mempool.transactions) only if block.creator is the
+    wallet's public key; a rejected block from anybody else leaves the pool untouched."""
+    ex = ctx.executor(loop_bound=3, inline="auto", max_paths=2000, no_inline=[r"Transaction::validate$", r"fmt", r"to_hex"])
+    ex.pure = [r".*"]
+    creator = ex.fresh_value("[u8; 33]", "block.creator")
+    wkey = ex.fresh_value("[u8; 33]", "wallet.public_key")
+    routed = S.EnumV("Option<u64>", None, S.I(z3.BitVec("routed_from_peer.discr", 64), True))
+    block = ctx.mk_struct(ex, "Block", "block", creator=creator, routed_from_peer=routed, transactions=S.Opaque("block.transactions", "Vec<Transaction>"))
+    wallet = ctx.mk_struct(ex, "Wallet", "wallet", public_key=wkey)
+    pool = ctx.mk_struct(ex, "Mempool", "mempool", wallet_lock=S.Ref(S.Cell(wallet)))
+    st = S.State()
+    st.pc.append(L.enum_in_range(routed, 2))
+    body, co = L.coroutine(ctx, ex, r"blockchain::<impl at [^>]*>::add_block_transactions_back",
+                           [S.Ref(S.Cell(S.Opaque("blockchain", "Blockchain")), (), True), S.Ref(S.Cell(pool), (), True), S.Ref(S.Cell(block), (), True)])
+    outs = ex.run(body, [S.Ref(S.Cell(co), (), True), S.Opaque("cx", "Context")], st)
+    v.paths += len(outs)
+    own = value_eq(ex, creator, wkey)
+    n = touched = 0
+    for o in outs:
+        if o.kind in ("unsupported", "path-limit"):
+            return v.undecided("%s %s" % (o.kind, o.info))
+        calls = [e[1] for e in o.events if e[0] == "call"]
+        writes = [c for c in calls if re.search(r"(?:AHashMap|HashMap)::<\[u8; 64\], Transaction[^>]*>::insert$|Mempool::add_transaction", c)]
+        drains = [c for c in calls if re.search(r"::drain::|::drain$|into_par_iter|par_drain", c)]
+        if not (writes or drains):
+            n += 1
+            continue
+        touched += 1
+        v.queries += 1
+        if ex.feasible(o.pc, z3.Not(own)):
+            v.fail("add_block_transactions_back puts transactions of a rejected block that this node did not create back into the pool (past the conflict check of add_transaction)",
+                   dict(path=L.trace_text(o, 10)))
+    if not touched:
+        return v.undecided("the hand-back branch was never reached")
+    v.covers_total += 1
+    v.covers_sat += 1 if n else 0
